@@ -77,6 +77,7 @@ RULES = [
   (r'state::core_word_collect', r'Overflow\(Sub\)', r'', 'Le(', 'n <= data_depth() = len - ds_len <= len on this path'),
   (r'state::core_word_const', r'call:index:index(_mut)?', r'', '-', 'pos was just returned by dict_pos (rposition over dict) and nothing removed an entry since'),
   (r'state::core_word_def_end', r'Overflow\(Sub\)', r'', '-', 'start is the origin of the Jump emitted by `:` and a Ret was just emitted: code_origin() >= start + 2'),
+  (r'state::core_word_def_end', r'panic:begin_panic', r'', '@function-entries-stay-functions', 'the entry at the index kept in the pending flow was inserted as a Function by `:`; entries are appended, cut at the end or removed as a whole, and the only in-place change of an entry kind-for-kind (`const` over a constant)'),
   (r'state::core_word_nested_(end|inject)', r'panic:panic', r'loops', '-', 'debug_assert: run() finished the meta code before the next token is read and every counted loop pops its record on exit (C01.R4), so the loop stack is back at the context mark'),
   (r'state::map_collect_till_ptr', r'BoundsCheck', r'', 'Eq(Rem(', 'the slice length is even on this path, so every chunk of chunks(2) has exactly two elements'),
   (r'state::core_word_sort', r'call:sort', r'', 'call slice::<impl [T]>::windows', 'every adjacent pair was just checked to be comparable (partial_cmp is Some); comparability is an equivalence on {int, real (non-NaN), str}, so the order restricted to this vector is total'),
